@@ -118,6 +118,20 @@ def run_config(ctx, facts, R1="C03-R1", R2="C03-R2", only=None, anchors=None, si
     targets = [b for b in facts.bodies if b.path in guarded_bodies]
     if not only:
         targets += [b for b in facts.methods_named("storage::Storage", "contains") if b not in targets and not b.trait_item]
+    # role: membership queries keyed by a handle - any other body with one Entity parameter that asks a bit set `contains(index of that
+    # handle)` and answers bool / Option (today Storage::contains; a new `contains_other`, `has`, `is_member` is found the same way)
+    for b in facts.bodies:
+        if b in targets or b.kind == "Closure" or b.self_ty == "world::entity::Allocator" or base_ty(b.self_ty or "") == CHANGESET or (only and only not in b.path):
+            continue
+        ents = [i for i in range(1, b.argc + 1) if strip_ref(b.ltype[i]) == ENTITY]
+        rty = b.ltype.get(0, "")
+        if len(ents) != 1 or not (rty == "bool" or rty.startswith("std::option::Option<")):
+            continue
+        x = ("param", ents[0], ())
+        asks = [bb for bb, t in b.calls() if t["callee"].get("name") == "contains" and "BitSet" in ((t["callee"].get("trait") or "") + (t["callee"].get("path") or "") + (t["callee"].get("self_ty") or ""))
+                and len(t["args"]) > 1 and entity_of_index(b, b.arg_origin(bb, 1)) == x]
+        if asks:
+            targets.append(b)
     # evidence only: bodies that merely delegate a handle to a checked access path
     deleg = set()
     for b in facts.bodies:
